@@ -187,7 +187,13 @@ func ValidateParameter(ctx context.Context, input *RequestValidationInput, param
 				// Next check `parameter.Required && !found` will catch this.
 			case openapi3.ParameterInQuery:
 				q := req.URL.Query()
+				// An unset explode takes the default of the parameter's
+				// style (true for form): write the default the way it will
+				// be decoded.
 				explode := parameter.Explode != nil && *parameter.Explode
+				if sm, err := parameter.SerializationMethod(); err == nil {
+					explode = sm.Explode
+				}
 				populateDefaultQueryParameters(q, parameter.Name, value, explode)
 				req.URL.RawQuery = q.Encode()
 			case openapi3.ParameterInHeader:
